@@ -13,6 +13,7 @@ let table : (string * (z list -> z list)) list = [
   ("fill_spans", run_fill_spans);
   ("line_edge", run_line_edge);
   ("quad_edge", run_quad_edge);
+  ("cubic_edge", run_cubic_edge);
   ("fill_px", run_fill_px);
   ("aruns", run_aruns);
   ("aa_spans", run_aa_spans);
